@@ -162,16 +162,16 @@ package mcp
 //@   invariant isnil(self.state) || istype(self.state, State)
 //@
 //@ func stdioClientTransport.sendRequest
-//@   trusted[C16]
+//@   trusted[C16,C14]
 //@   modifies *
 //@   ensures[C16] netops == old(netops) + 1
-//@   ensures[C16] ret1 == nil ==> ret != nil
+//@   ensures[C16,C14] ret1 == nil ==> ret != nil
 //@ func stdioClientTransport.sendNotification
-//@   trusted[C16]
+//@   trusted[C16,C14]
 //@   modifies *
 //@   ensures[C16] netops == old(netops) + 1
 //@ func stdioClientTransport.close
-//@   trusted[C16]
+//@   trusted[C16,C14]
 //@   modifies *
 //@   ensures[C16] netops == old(netops)
 //@
@@ -504,7 +504,7 @@ package mcp
 //@ func httpServerHandler.handlePostRequest
 //@   requires status(w) == 0
 //@   before call (net/http.Header).Set#1 assert[C04 session-header-only-in-stateful-mode] !h.isStateless
-//@   modifies *, status(w), hval, handled, lastres, lasterr
+//@   modifies *, status(w), hval, handled, lastres, lasterr, cancels
 //@   ensures[C03,C06] status(w) != 0
 //@ func httpServerHandler.handlePostNotification
 //@   requires status(w) == 0
